@@ -54,14 +54,17 @@ class B(Channel):
 CHAN = {"A": A, "B": B}
 
 
-def capacitor_geometry(mod, K):
-    """Isolated capacitors: a point current of I nA changes v by I * K[r] / radius mV per step."""
+def capacitor_geometry(mod, K, cm=None):
+    """Isolated capacitors: a point current of I nA changes v by I * K[r] / radius mV per step.
+    cm: optional specific capacitances per row; the length shrinks by the same factor, so point currents (stimuli,
+    synaptic currents) act exactly as with cm = 1 (current DENSITIES, i.e. the probe channels, would not)."""
     n = len(mod.nodes)
     assert len(K) == n
+    cm = [1.0] * n if cm is None else list(cm)
     mod.set("axial_resistivity", 1e30)
-    mod.set("capacitance", 1.0)
+    mod.set("capacitance", np.asarray(cm))
     mod.set("radius", 1.0)
-    mod.set("length", np.asarray([DT * 1e5 / (2 * math.pi * k) for k in K]))
+    mod.set("length", np.asarray([DT * 1e5 / (2 * math.pi * k * c) for k, c in zip(K, cm)]))
     mod.set("v", 0.0)
 
 
@@ -118,10 +121,10 @@ class Q(Synapse):
 SYN = {"P": P, "Q": Q}
 
 
-def build_net(shapes, K):
+def build_net(shapes, K, cm=None):
     comp = jx.Compartment()
     cells = [jx.Cell([jx.Branch(comp, ncomp=int(k)) for k in shape], parents=[-1] + [0] * (len(shape) - 1)) for shape in shapes]
     net = jx.Network(cells)
-    capacitor_geometry(net, K)
+    capacitor_geometry(net, K, cm)
     net.set("v", np.arange(len(net.nodes)) + 1.0)
     return net
